@@ -70,7 +70,7 @@ func vfFk(r func(int) int) byte {
 func TestVerifC01(t *testing.T) {
 	vfRunHistories(t, "C01", 240, 6000, func(i int, r func(int) int) vfProfile {
 		return vfProfile{workers: 2 + r(9), txns: 6 + r(8), keys: 6 + r(14), fkMode: vfFk(r), persistMs: 1 + r(5),
-			gates: r(2) == 0, readers: r(2), maxOps: 3 + r(5), abortPct: 8, yieldPct: 30}
+			gates: r(2) == 0, readers: r(2), maxOps: 3 + r(5), abortPct: 8, yieldPct: 30, admin: i%4 == 1}
 	})
 }
 
@@ -96,7 +96,7 @@ func TestVerifC03(t *testing.T) {
 func TestVerifC06(t *testing.T) {
 	vfRunHistories(t, "C06", 200, 4000, func(i int, r func(int) int) vfProfile {
 		return vfProfile{workers: 2 + r(6), txns: 6 + r(8), keys: 8 + r(16), fkMode: vfFk(r), persistMs: 1 + r(3),
-			gates: true, readers: 1, maxOps: 4 + r(5), abortPct: 8, yieldPct: 30, admin: true}
+			gates: true, readers: 1, maxOps: 4 + r(5), abortPct: 8, yieldPct: 30, admin: true, file: i%3 == 1}
 	})
 }
 
@@ -120,6 +120,6 @@ func TestVerifC08(t *testing.T) {
 func TestVerifC16(t *testing.T) {
 	vfRunHistories(t, "C16", 200, 4000, func(i int, r func(int) int) vfProfile {
 		return vfProfile{workers: 3 + r(8), txns: 8 + r(10), keys: 8 + r(16), fkMode: vfFk(r), persistMs: 1 + r(2),
-			gates: true, readers: 1, maxOps: 3 + r(4), abortPct: 5, yieldPct: 20, admin: i%4 == 0}
+			gates: true, readers: 1, maxOps: 3 + r(4), abortPct: 5, yieldPct: 20, admin: i%4 == 0, file: i%2 == 1}
 	})
 }
